@@ -167,6 +167,9 @@ func checkMemberFilter(w *World, r *Result) {
 					underImpl = true
 				}
 			}
+			if derivedFrom(cf, a) != nil && !underImpl {
+				continue // a pre-filter of the candidates (its conditions are added below)
+			}
 			if cf == fi || underImpl {
 				app, appFn = a, cf
 				napps++
@@ -189,6 +192,30 @@ func checkMemberFilter(w *World, r *Result) {
 	pos := w.Pos(app.Pos())
 	appended := app.Rhs[0].(*ast.CallExpr).Args[1]
 	memberObj := objOf(info, identOf(appended))
+	// when the members range over a list that an earlier loop filtered out of the candidates, what that filter
+	// requires of an element holds for the member (the filter's loop variable stands for the member)
+	memberAlias := map[types.Object]bool{memberObj: true}
+	if mrs := derivedFrom(appFn, app); mrs != nil || true {
+		ast.Inspect(appFn.Decl.Body, func(x ast.Node) bool {
+			rs, ok := x.(*ast.RangeStmt)
+			if !ok || identOf(rs.Value) == nil || objOf(info, identOf(rs.Value)) != memberObj || identOf(rs.X) == nil {
+				return true
+			}
+			listObj := objOf(info, identOf(rs.X))
+			for _, a := range appendStmts(info, appFn.Decl.Body, "") {
+				if identOf(a.Lhs[0]) == nil || objOf(info, identOf(a.Lhs[0])) != listObj {
+					continue
+				}
+				if src := derivedFrom(appFn, a); src != nil {
+					memberAlias[objOf(info, identOf(src.Value))] = true
+					for _, c := range pathConds(appFn.Decl, a) {
+						conds = append(conds, pcondAt{c, appFn})
+					}
+				}
+			}
+			return true
+		})
+	}
 	var got []string
 	itfVar := types.Object(nil)
 	for _, c := range conds {
@@ -199,7 +226,7 @@ func checkMemberFilter(w *World, r *Result) {
 		if typ == "*go/types.Interface" {
 			root := rootIdent(x)
 			who := "candidate"
-			if root != nil && objOf(info, root) == memberObj {
+			if root != nil && memberAlias[objOf(info, root)] {
 				who = "member"
 			}
 			s := who + " is interface"
@@ -488,6 +515,11 @@ func candidatesSite(w *World) (*FuncInfo, *ast.AssignStmt) {
 					underImpl = true
 				}
 			}
+			// a list derived from another list of named types (`for _, t := range all { if keep(t) { cands =
+			// append(cands, t) } }`) is a filter, not the collection
+			if derivedFrom(cf, a) != nil {
+				continue
+			}
 			if !underImpl {
 				rfi, rapp = cf, a
 				n++
@@ -498,4 +530,29 @@ func candidatesSite(w *World) (*FuncInfo, *ast.AssignStmt) {
 		return nil, nil
 	}
 	return rfi, rapp
+}
+
+// derivedFrom: the append adds the value variable of an enclosing range over a []*types.Named (the list is a filtered
+// copy of that slice); returns the range statement.
+func derivedFrom(fi *FuncInfo, app *ast.AssignStmt) *ast.RangeStmt {
+	info := fi.Pkg.TypesInfo
+	call, ok := app.Rhs[0].(*ast.CallExpr)
+	if !ok || len(call.Args) != 2 || identOf(call.Args[1]) == nil {
+		return nil
+	}
+	v := objOf(info, identOf(call.Args[1]))
+	var out *ast.RangeStmt
+	ast.Inspect(fi.Decl.Body, func(x ast.Node) bool {
+		rs, ok := x.(*ast.RangeStmt)
+		if !ok || !(rs.Body.Pos() <= app.Pos() && app.End() <= rs.Body.End()) || identOf(rs.Value) == nil {
+			return true
+		}
+		if objOf(info, identOf(rs.Value)) == v {
+			if t := info.TypeOf(rs.X); t != nil && t.String() == "[]*go/types.Named" {
+				out = rs
+			}
+		}
+		return true
+	})
+	return out
 }
